@@ -361,9 +361,24 @@ func cmdFmt(args []string) {
 		} else {
 			out["ok"] = true
 			out["result"] = res
+			// does the output parse?
+			p, _, _ := parser.NewPacketDslParserByContent(res)
+			lst := parser.NewSyntaxErrorListener()
+			p.RemoveErrorListeners()
+			p.AddErrorListener(lst)
+			quiet(func() { p.Packet() })
+			out["out_syntax_errors"] = len(lst.Errors)
 		}
 	}()
 	emit(out)
+}
+
+// fmts : one file path per stdin line; one JSON line per path (same content as fmt)
+func cmdFmts() {
+	sc := bufio.NewScanner(os.Stdin)
+	for sc.Scan() {
+		cmdFmt([]string{strings.TrimSpace(sc.Text())})
+	}
 }
 
 // tokens <file> : the ANTLR token stream (all channels), for cross-checking the harness tokenizer
@@ -416,6 +431,8 @@ func main() {
 		cmdRep(os.Args[2:])
 	case "fmt":
 		cmdFmt(os.Args[2:])
+	case "fmts":
+		cmdFmts()
 	case "tokens":
 		cmdTokens(os.Args[2:])
 	default:
